@@ -5,6 +5,7 @@ go 1.21
 require (
 	github.com/RoaringBitmap/roaring/v2 v2.4.5
 	github.com/blevesearch/bleve_index_api v1.2.8
+	github.com/blevesearch/go-faiss v1.0.25
 	github.com/blevesearch/scorch_segment_api/v2 v2.3.10
 	github.com/blevesearch/vellum v1.1.0
 	github.com/blevesearch/zapx/v16 v16.0.0
@@ -18,3 +19,5 @@ require (
 )
 
 replace github.com/blevesearch/zapx/v16 => /repo
+
+replace github.com/blevesearch/go-faiss => ../fakefaiss
